@@ -33,9 +33,9 @@ func c05Canary() tm.Tree {
 
 type c05Vector struct {
 	name  string
-	pre   tm.Tree                    // entries pre-placed in the destination
+	pre   tm.Tree                   // entries pre-placed in the destination
 	names func(abs string) [][]byte // names of the list entries leading to (and including) the hostile entry; last one is the hostile entry
-	setup int                        // number of leading set-up entries (symlinks) in names
+	setup int                       // number of leading set-up entries (symlinks) in names
 }
 
 func c05Vectors() []c05Vector {
